@@ -517,6 +517,66 @@ def probe_check(rec, path, F, sizes, mspec, mode, cs):
 
 
 # ------------------------------------------------------------------ one (matrix, layout, option vector)
+def span_probe(rec, nmax):
+    """the spans balance_cooler hands to the split engine, for EVERY pixel count 0..nmax x EVERY chunksize 1..nnz+2 (and None):
+    the real function is called on a stand-in cooler that only answers info['nnz'] / info['nbins'], and is stopped at its first
+    use of the split engine (cooler._balance.split is replaced by a recorder): the spans must cover every pixel of [0, nnz)
+    exactly once, in order (an end beyond nnz is harmless: slices are clipped)"""
+    import cooler._balance as cb
+
+    class _Stop(Exception):
+        pass
+
+    class _Clr:
+        def __init__(self, n):
+            self.info = {"nnz": n, "nbins": 6}
+            self.chromnames = ["a", "b"]
+
+    seen = {}
+
+    def rec_split(clr, *a, spans=None, **k):
+        seen["spans"] = spans
+        raise _Stop()
+    orig = cb.split
+    cb.split = rec_split
+    C = "spans-cover-every-pixel-exactly-once@every-nnz-and-chunksize"
+    try:
+        for n in range(0, nmax + 1):
+            bad = None
+            for cs in [None] + list(range(1, n + 3)):
+                seen.clear()
+                try:
+                    cb.balance_cooler(_Clr(n), chunksize=cs, min_nnz=1)
+                except _Stop:
+                    pass
+                except Exception as e:      # the stand-in does not support what the code asked before splitting
+                    bad = (cs, f"{type(e).__name__}: {e}", None)
+                    break
+                sp = seen.get("spans")
+                if sp is None:
+                    bad = (cs, "split was not given spans", None)
+                    break
+                sp = [(int(a), int(b)) for a, b in sp]
+                cover = []
+                ok = True
+                pos = 0
+                for a, b in sp:
+                    if a != pos or b < a:
+                        ok = False
+                        break
+                    pos = b
+                if not ok or pos < n or (sp and sp[0][0] != 0) or (n > 0 and not sp):
+                    bad = (cs, sp[:3] + (["..."] if len(sp) > 6 else []) + sp[-3:], n)
+                    break
+            case = dict(nnz=n, chunksizes=f"None, 1..{n + 2}")
+            if bad is None:
+                rec.ok(C, case, nontrivial=n > 0)
+            else:
+                rec.fail(C, dict(nnz=n, chunksize=bad[0]), bad[1], f"consecutive spans from 0 reaching {n}", signature=C)
+    finally:
+        cb.split = orig
+
+
 def chunk_sizes(nnz):
     """every chunk size 1..nnz+2 for small coolers; 12 sizes incl. the boundary ones beyond"""
     if nnz <= 40:
@@ -873,7 +933,7 @@ def main():
                    "x 6 vectors x every chunksize at max_iters 3; empty cooler; trans-only on a one-chromosome cooler; 6 map implementations (list, generator, reversed, 2 seeded evaluation orders, "
                    "seeded delivery order) at chunksize {2,5} on 3 vectors per cooler; every permutation of 3 and of 4 chunks; Pool(2), Pool(3) x map/imap/"
                    "imap_unordered x chunksize {1,4} x 2 vectors x 2 coolers; probe of the pixels read by every pass for every chunksize 1..nnz+2 and None x 3 modes on "
-                   "3 coolers (+cis on the 5-bin one); 6 CLI runs (-p 1/2/3, -c 1..7, 3 modes); history: one path rewritten 4 times in 3 chains (2+2 -> 3+1 -> 1+1+2; "
+                   "3 coolers (+cis on the 5-bin one); the spans handed to the split engine for EVERY nnz 0..300 x EVERY chunksize None, 1..nnz+2 (real function on a stand-in cooler, stopped at the first split); 6 CLI runs (-p 1/2/3, -c 1..7, 3 modes); history: one path rewritten 4 times in 3 chains (2+2 -> 3+1 -> 1+1+2; "
                    "3+2+1 -> 2+4; 3+2 -> 2+3 with the same pixels) x 4 vectors (cis, trans, genome-wide, cis+x0) x {Cooler(P), P::/} x {builtin, Pool(2|3) map/imap_unordered}")
         B.exhaustive = True
     else:
@@ -894,7 +954,7 @@ def main():
                     probe_modes=("gw", "cis", "trans") if k == 0 else ())
         B.bound = ("7 small coolers (4-6 bins, 1-3 chromosomes, dense / sparse / graded / banded / empty) x 10 option vectors (6 fixed + 4 seeded) x every chunksize "
                    "1..nnz+2 to max_iters 25; 6 map implementations at chunksize {1,2,5,nnz/2+1}; every permutation for every chunksize giving 2..4 chunks (3 vectors per "
-                   "cooler); pixel-read probe for every chunksize x 3 modes; beyond the bound: 4 seeded random coolers (12 and 30 bins) x 8 vectors x every chunksize "
+                   "cooler); pixel-read probe for every chunksize x 3 modes; spans for every nnz 0..600 x every chunksize; beyond the bound: 4 seeded random coolers (12 and 30 bins) x 8 vectors x every chunksize "
                    "(nnz<=40) or 12 chunk sizes incl. nnz-1..nnz+2; Pool(2), Pool(3) x map/imap/imap_unordered x chunksize {1,4} x 6 vectors x 3 coolers; 36 CLI runs (-p 1/2/3); "
                    "history: the 3 quick chains + seeded chains of 5 (6 bins, 8 layouts) and 4 (5 bins, 6 layouts) rewrites + same layout/new pixels, "
                    "x 4 vectors x 2 spellings x {builtin, Pool.map, imap, imap_unordered}")
@@ -931,6 +991,7 @@ def main():
             cli_checks(B, rec, upper_spec(F), sizes, runs)
     for name, steps in hist_scenarios(B.thorough, B.rng):
         history_checks(B, rec, pools, name, steps, full=B.thorough)
+    span_probe(rec, 600 if B.thorough else 300)
     merge(B, rec, state)
     for p in pools.values():
         p.terminate()
